@@ -203,6 +203,19 @@ CLAIMS["C12"] = (
     "ProgenyGenicCovariance classes (uninitialised diagonal / rank) which cannot be instantiated.",
     "DESIGN.md §4 C12")
 
+CLAIMS["C04"] = (
+    "spec congruence of numpy kernels, count/flag definitions and rrBLUP assembly through an algebraic normal form + structural rules for intercept row, "
+    "dominance design blocks, genotype coding, label hand-off, same-named parameter forwarding + boundary-exactness taint (ast)",
+    "Decides the structural part: predict/gebv/gegv/score/var_A/var_a/bulmer kernels of the four model classes normalise to their definitions (linearity "
+    "in the design, so invariance to taxon order and marker partition follows for exact arithmetic); gebv/gegv add the fully written intercept row "
+    "[1,1/q,..].beta; the dominance design is (A != 0)&(A != ploidy) with blocks [A,D] and [u_a;u_d] in the same order at all sites; every design is "
+    "requested in the {0,1,2} coding; results carry the genotype object's taxa/taxa_grp; the twelve favourable/deleterious/neutral count, frequency and flag "
+    "routines equal their definitions (mirror u>0 / u<0, zero-effect reset); shared parameters such as ploidy are forwarded; no reciprocal-multiply frequency "
+    "reaches a comparison with 1; rrBLUP uses the uncentred mean as intercept, ridge = varE/varU on the diagonal of Z'Z, Z'y, the Gauss-Seidel sweep and "
+    "exact zeros for monomorphic markers. Convergence / optimality of Nelder-Mead and Gauss-Seidel are NOT decided.",
+    "Trusted: numpy matmul/where/var semantics; scipy.optimize.minimize. The normal-equation and 'never worse than zero' clauses are numerical and outside this check.",
+    "DESIGN.md §4 C04")
+
 NOT_YET = "rule set not built yet (build in progress; see DESIGN.md §8)"
 NA = {}
 
